@@ -114,6 +114,23 @@ def cases(tier, seed):
     for t1 in reps:
         for t2 in reps:
             yield ('M', cm.on_carrier([t1, t2]))
+    # constraints that share their name (also the empty name) but not their kind
+    for t1 in reps:
+        for t2 in reps:
+            if t1 != t2:
+                car = cm.on_carrier([t1, t2])
+                for nm in ('c1', ''):
+                    yield ('M', (car[0], tuple((nm, t) for _n, t in car[1])))
+    # ratios near a rounding boundary: n features of which k occur in the constraints, n beyond 100
+    sizes = (101, 111, 133, 150) if tier == 'quick' else tuple(range(101, 161))
+    for n in sizes:
+        leaves = ['L%d' % i for i in range(n - 1)]
+        tree = sh.F('Fa', [sh.R(0, 1, [sh.F(x)]) for x in leaves])
+        for k in range(1, 61):
+            t = leaves[0]
+            for x in leaves[1:k]:
+                t = ('OR', t, x)
+            yield ('MR', (tree, (('c1', t),)))
     # filters
     fmodels = [sh.M(sh.F('Fa')), cm.on_carrier([('REQUIRES', 'x', 'y'), ('OR', 'x', ('AND', 'y', 'z'))]),
                _flagged(sh.M(sh.F('Fa', [sh.R(1, 2, [sh.F('Bb'), sh.F('Dc')]), sh.R(1, 1, [sh.F('Ad')])])), {'Fa', 'Dc'})]
@@ -169,6 +186,8 @@ def describe(case):
         return 'MB:%s' % (case[1],)
     if case[0] == 'ME':
         return 'ME:' + sh.model_str(case[1])
+    if case[0] == 'MR':
+        return 'MR:%d features (root with optional leaves), %d of them in the constraint' % (sh.size(case[1]), len(set(sh.tree_names(case[1][1][0][1]))))
     if case[0] == 'MF':
         return 'MF:%s | filter=%s' % (sh.model_str(case[1]), ','.join(case[2]))
     return cm.describe_model_case(case)
@@ -398,7 +417,7 @@ def _plain(res):
 def check(case):
     kind = case[0]
     out = []
-    if kind == 'M':
+    if kind in ('M', 'MR'):
         model = case[1]
         fm, fails = cm.built(model)
         if fails:
